@@ -80,3 +80,17 @@ contract(f'{SF}::init_edit_init', props=('C09', 'C10'),
          ensures=[c for c in state_clauses('result', 'shot') if 'C09' in c['props']],
          modifies=['calc.*', '*._defined_units', 'shot.ammo.dm.drag_table*'],
          reveal=['line_through'])
+
+# C09/C10 history: the second of two successive drag queries on an initialised calculator satisfies the very clause of
+# drag_by_mach's contract (the look-up keeps no position between queries)
+from pyvc.contract import REGISTRY as _REG  # noqa: E402
+_dbm = _REG[f'{TC}::TrajectoryCalc.drag_by_mach']
+contract(f'{SF}::drag_queries_after_init', props=('C09', 'C10', 'C01'),
+         params=dict(calc=CALC, shot=shot_shape(), m1=Real(lo=0, hi=10), m2=Real(lo=0, hi=10)),
+         requires=[('table-strictly-ascending', ASC.format(t='shot.ammo.dm.drag_table'))],
+         ensures=[('second-query-answered-from-the-table-whatever-the-first-query-was',
+                   _dbm.ensures[0].src.replace('self.', 'result[0].').replace('result ==', 'result[2] ==')
+                   .replace('mach_list[k] <= mach <= ', 'mach_list[k] <= m2 <= ').replace('mach * (', 'm2 * (')
+                   .replace('a * mach)', 'a * m2)').replace('implies(mach >', 'implies(m2 >'))],
+         modifies=['calc.*', '*._defined_units'], reveal=['line_through'],
+         inline=[f'{TC}::TrajectoryCalc.drag_by_mach'])     # the real body runs twice: state kept between queries shows
